@@ -1842,6 +1842,8 @@ fn root_main(w: Arc<World>) {
     // final stage: every gate is opened, every stream closed; then everything must finish
     w.with(|i| {
         i.final_stage = true;
+        i.clock += 1;
+        i.final_stage_clock = i.clock;
         i.root_stage = "final: open all gates".to_string();
     });
     let waiters = w.with(|i| std::mem::take(&mut i.baton_waiters));
@@ -1932,6 +1934,7 @@ pub fn run_case(case: &Case, opts: &RunOpts) -> Outcome {
         root_stage: String::new(),
         phase: 0,
         final_stage: false,
+        final_stage_clock: 0,
         panic_case: case_has_panic(&case),
         panic_clock: 0,
         quiet_panic_variant: case_has_panic(&case) && case.phases.len() == 1,
